@@ -98,3 +98,67 @@ def nontrivial(case, recs):
             active.add(t); last = t
         elif r[0] == "ret": active.discard(r[1])
     return sw and any(r[0] == "ret" and r[2] in (2, 5) for r in recs)
+
+
+# ---- payload with a destructor (C05): the payload's Drop is a scheduling point; dealloc = drop_in_place, then the id goes back to the free list
+def mk_drop_case(fl, N, progs, sched, meta=None):
+    line = "pool fl=%s N=%d dropper=1 ; " % (fl, N) + " ; ".join(" ".join(p) for p in progs) + " ; S " + " ".join(map(str, sched))
+    coq = "%s %d [%s] [%s]%%nat" % ("run_pooldrop_atomic" if fl == "atomic" else "run_pooldrop_fullsync", N,
+            "; ".join("[" + "; ".join("PAlloc" if o == "alloc" else "PDealloc" for o in p) + "]" for p in progs), "; ".join(map(str, sched)))
+    m = dict(fl=fl, N=N, progs=progs, sched=sched, profile="pooldrop"); m.update(meta or {})
+    return Case(line, coq, m)
+
+def parse_drop_case_line(line):
+    secs = [s.strip() for s in line.split(";")]
+    params = dict(kv.split("=") for kv in secs[0].split()[1:])
+    progs, sched = [], []
+    for sec in secs[1:]:
+        if sec.startswith("S ") or sec == "S": sched = [int(x) for x in sec[1:].split()]
+        else: progs.append(sec.split())
+    return mk_drop_case(params["fl"], int(params["N"]), progs, sched)
+
+def gen_drop_case(rng, fl):
+    """pool (almost) exhausted, so that the slot being released is the next one handed out; allocations racing with the release"""
+    N = rng.choice([2, 4]); nthreads = rng.randint(2, 3)
+    progs = []
+    for t in range(nthreads):
+        p = ["alloc"] * rng.randint(1, max(1, N // nthreads + 1))
+        for _ in range(rng.randint(1, 4)): p.append(rng.choice(["dealloc", "dealloc", "alloc", "dealloc_ref"]))
+        p += ["alloc"] * rng.randint(0, 2)
+        progs.append(p)
+    total = sum(len(p) for p in progs)
+    sched = random_sched(rng, nthreads, rng.randint(total * 2, total * 7), burst=rng.choice([0.3, 0.6, 0.85]))
+    for _ in range(6 * 8 + 8): sched += list(range(nthreads))
+    return mk_drop_case(fl, N, progs, sched)
+
+def oracle_drop(case, recs):
+    """a pool slot is not handed to a new allocation before the destructor of its previous payload has run (and that runs exactly once per release)"""
+    hits = []
+    progs = case.meta["progs"]
+    state = {}          # id -> "owned" | "releasing" (dealloc started, destructor not yet run) | "free"
+    pos = {t: 0 for t in range(len(progs))}; held = {t: [] for t in range(len(progs))}; started = {}
+    for r in recs:
+        if r[0] == "acc":
+            t = r[1]
+            if t not in started and pos[t] < len(progs[t]):
+                op = progs[t][pos[t]]; started[t] = op
+                if op.startswith("dealloc") and held[t]:
+                    i = held[t][-1]; state[i] = "releasing"
+            if r[3] == 18:
+                i = r[2] - 400
+                if state.get(i) != "releasing": hits.append((None, "the destructor of the payload in slot %d ran although that slot is not being released (state %s)" % (i, state.get(i))))
+                state[i] = "destroyed"
+        elif r[0] == "ret":
+            t = r[1]; op = started.pop(t, None); pos[t] += 1
+            if r[2] == 3:
+                i = r[3]
+                if state.get(i) in ("releasing", "owned"):
+                    hits.append((None, "slot %d was handed to a new allocation %s" % (i, "before the destructor of its previous payload ran" if state.get(i) == "releasing" else "while it is owned")))
+                state[i] = "owned"; held[t].append(i)
+            elif r[2] == 1:
+                i = r[3]
+                if held[t] and held[t][-1] == i: held[t].pop()
+                if state.get(i) == "releasing": hits.append((None, "slot %d went back to the free list without its payload's destructor having run" % i))
+                if state.get(i) == "destroyed": state[i] = "free"
+        elif r[0] == "panic": hits.append((None, "panic in thread %d" % r[1]))
+    return hits[:3]
